@@ -138,3 +138,12 @@ Lemma nodemaker_pins_ok :
   nodemaker_code_pins = expected_nodemaker_code_pins
   /\ (nodemaker_memokey_immutable, nodemaker_memokey_mutable) = ("I", "M").
 Proof. vm_compute. split; reflexivity. Qed.
+
+Definition expected_dirnode_code_pins : list (string * string) := [
+    ("_pack_normalized_children", "7a5ccb3ae7ace4e7");
+    ("DirectoryNode._unpack_contents", "54b4792b0a8b789c");
+    ("DirectoryNode._create_and_validate_node", "aa733bbd375adbc6");
+    ("DirectoryNode._pack_contents", "78bff02dc58a87f3")].
+
+Lemma dirnode_pins_ok : dirnode_code_pins = expected_dirnode_code_pins.
+Proof. vm_compute. reflexivity. Qed.
